@@ -17,7 +17,6 @@ import (
 	"time"
 
 	"github.com/pion/interceptor"
-	"github.com/pion/interceptor/pkg/gcc"
 	"github.com/pion/interceptor/pkg/pacing"
 	"github.com/pion/rtp"
 
@@ -46,6 +45,7 @@ type failCase struct {
 	Kind    string   `json:"kind"` // pacing | leaky
 	Rate    int      `json:"rate"`
 	Writers [][]spec `json:"writers"`
+	Infos   []uint32 `json:"infos,omitempty"` // leaky: the SSRC of stream w (default 1000+w)
 	Conc    bool     `json:"conc"`
 	GapUS   int      `json:"gap_us,omitempty"` // pause of a writer between two writes
 	Plan    failPlan `json:"plan"`
@@ -159,12 +159,7 @@ func runFail(c failCase, fails *[]cq.ImplFailure) failCase { //nolint:cyclop
 		closer = ic.Close
 		c.Burst = int64(pacing.VerifBurst(c.Rate, time.Millisecond))
 	default:
-		p := gcc.NewLeakyBucketPacer(c.Rate)
-		for w := 0; w < nw; w++ {
-			p.AddStream(uint32(1000+w), next(w)) //nolint:gosec
-			ws[w] = p
-		}
-		closer = p.Close
+		closer, _ = leakyStreams("", c.Rate, c.Infos, ws, next)
 		c.Burst = 0
 	}
 	c.Acc = make([][]pk, nw)
@@ -173,7 +168,7 @@ func runFail(c failCase, fails *[]cq.ImplFailure) failCase { //nolint:cyclop
 	total := 0
 	send := func(w int) {
 		for _, s := range c.Writers[w] {
-			h, p := build(w, uint32(1000+w), s) //nolint:gosec
+			h, p := build(w, infoSSRC(c.Infos, w), s)
 			want := toPk(int64(w), h, p)
 			n, err := ws[w].Write(h, p, interceptor.Attributes{})
 			amu.Lock()
